@@ -23,7 +23,6 @@ import (
 	"io"
 	"math"
 	"reflect"
-	"unsafe"
 )
 
 //Encoder type
@@ -31,7 +30,7 @@ type Encoder struct {
 	writer     io.Writer
 	clsDefList []ClassDef
 	nameMap    map[string]string
-	refMap     map[unsafe.Pointer]_refElem
+	refMap     map[_refKey]int
 }
 
 //NewEncoder new
@@ -52,7 +51,7 @@ func NewEncoder(w io.Writer, np map[string]string) *Encoder {
 func (e *Encoder) Reset(w io.Writer) {
 	e.writer = w
 	e.clsDefList = make([]ClassDef, 0, 11)
-	e.refMap = make(map[unsafe.Pointer]_refElem, 11)
+	e.refMap = make(map[_refKey]int, 11)
 }
 
 //RegisterNameType register name type
